@@ -61,10 +61,10 @@ def run(tier, seed, replay=None):
     cv = ck.validate(DIR, "GpTrace", [c for c, _ in ctl], "negative controls")
     for (c, exp), v in zip(ctl, cv):
         ck.control(f"corrupted trace rejected ({exp} -> {v['why']})", (not v["ok"]) and exp in v["why"], str(v))
-    ck.rule = ("random graphs with 1-9 nodes given by neighbour lists: 70% symmetric (then articulation points and bridges are "
-               "checked too), duplicates, self loops, isolated nodes, planted bridges, shuffled node order, int/str labels; damping in "
+    ck.rule = ("random graphs with 1-9 nodes given by neighbour lists: 70% symmetric, 30% asymmetric (an edge exists when either end lists "
+               "the other; every function is checked on both), duplicates, self loops, isolated nodes, planted bridges, shuffled node order, int/str labels; damping in "
                "{0.05..0.95}, tolerance 1e-6 / 1e-4, resolutions in {1/4..5}; non-trivial = >= 2 listed neighbours; distinct by hash")
-    ck.assumptions = ["articulation_points / bridges only on symmetric neighbour lists, read as simple graphs (duplicates are not parallel edges)",
+    ck.assumptions = ["neighbour lists are read as simple undirected graphs (duplicates are not parallel edges)",
                       "PageRank residual bound: per node |s - F(s)| <= n*tol*d + rounding slack, scores scaled by 10^6",
                       "Louvain modularity compared at 2e-6 (TLC integers are 32-bit)"]
     return ck.finish()
